@@ -17,7 +17,9 @@ What is proved (all for the code as it is, `Code.real`; every `leak_*` shows one
   `Enc.encodeEntry` of C01/C02, the console line is `Console.consoleLine` of C16;
 * `buffer_owner`, `in_flight_undisturbed` — the buffer returned by `EncodeEntry` is in no pool and referenced by no
   pooled object, and its bytes stay intact until the sink has seen them, whatever else happens in between;
-* `field_covered`, `source_matches_model_get`, `put_resets_cover_inv`, `put_sites`, `free_sites` — decided over `Gen/Pools.lean`, regenerated from the
+* `hook_reads_own_entry`, `hooked_entry_not_pooled` — a CheckedEntry is in no pool while its hook runs, so the hook reads
+  the entry of its own call whatever is logged meanwhile (`leak_early_put`: not so if `putCheckedEntry` comes first);
+* `put_is_last_use`, `field_covered`, `source_matches_model_get`, `put_resets_cover_inv`, `put_sites`, `free_sites` — decided over `Gen/Pools.lean`, regenerated from the
   source on every run: a new field, a dropped reset, a new put site or a moved `Free` breaks the build.
 
 Trusted: `sync.Pool` hands out an object to one user at a time (the oracle never returns an object that is
